@@ -120,8 +120,40 @@ func sessScript(form string, pub []byte) []byte {
 		return append([]byte{0, 20}, h...)
 	case "p2tr":
 		return append([]byte{0x51, 32}, pub[1:33]...)
+	// ---- FOREIGN forms: scripts that carry one of the wallet's hashes (or the all-zero Hash160 field of a witness
+	// program address) under a template that is not the hash's own — nobody's outputs since /repo ebf80672
+	case "x-p2sh-pubhash": // a9 14 HASH160(pubkey) 87
+		return append(append([]byte{0xa9, 20}, h...), 0x87)
+	case "x-p2wpkh-scripthash": // 00 14 <P2SH-P2WPKH script hash>
+		return append([]byte{0, 20}, refHash160(append([]byte{0, 20}, h...))...)
+	case "x-p2pkh-scripthash": // 76 a9 14 <P2SH-P2WPKH script hash> 88 ac
+		return append(append([]byte{0x76, 0xa9, 20}, refHash160(append([]byte{0, 20}, h...))...), 0x88, 0xac)
+	case "x-p2sh-zero":
+		return append(append([]byte{0xa9, 20}, make([]byte, 20)...), 0x87)
+	case "x-p2wpkh-zero":
+		return append([]byte{0, 20}, make([]byte, 20)...)
+	case "x-p2pkh-zero":
+		return append(append([]byte{0x76, 0xa9, 20}, make([]byte, 20)...), 0x88, 0xac)
+	case "x-p2sh-nopush": // a9 <not 14> <script hash> 87: 23 bytes, first and last byte of P2SH, no 20-byte push
+		return append(append([]byte{0xa9, 0x4c}, refHash160(append([]byte{0, 20}, h...))...), 0x87)
 	}
 	panic("script form " + form)
+}
+
+var foreignForms = []string{"x-p2sh-pubhash", "x-p2wpkh-scripthash", "x-p2pkh-scripthash", "x-p2sh-zero", "x-p2wpkh-zero", "x-p2pkh-zero", "x-p2sh-nopush"}
+
+// isForeign: the wallet does not own an output of this form (pkscr_to_key_idx / sign_tx must find no key for it):
+// the x- forms in every mode, and the P2SH-P2WPKH script in bech32 / tap mode (no P2SH slot there)
+func isForeign(form, atype string) bool {
+	if strings.HasPrefix(form, "x-") {
+		return true
+	}
+	for _, f := range ownedForms(atype) {
+		if f == form {
+			return false
+		}
+	}
+	return true
 }
 
 // listedForm: the script form of the address `wallet -l` prints for this address type
@@ -210,6 +242,16 @@ func genSessions(g *vlib.Rng, n int) []Case {
 				s.Utxos = append(s.Utxos, u)
 			}
 			s.UseAll = g.Chance(1, 2)
+			if g.Chance(1, 3) { // outputs in forms the wallet does not own, never the first (the spend is sized on it)
+				for k := 1 + g.Intn(2); k > 0; k-- {
+					u := sessUtxo{Key: g.Intn(nk), Value: uint64(60000 + g.Intn(400000)), Form: foreignForms[g.Intn(len(foreignForms))]}
+					if g.Chance(1, 6) {
+						u.Form = "p2sh" // foreign in bech32 / tap mode only
+					}
+					at := 1 + g.Intn(len(s.Utxos))
+					s.Utxos = append(s.Utxos[:at], append([]sessUtxo{u}, s.Utxos[at:]...)...)
+				}
+			}
 		}
 		s.Rfc = g.Chance(1, 4)
 		out = append(out, Case{Kind: "session", W: w, S: s})
@@ -261,6 +303,27 @@ func corpusSessions() []Case {
 			s.Utxos = append(s.Utxos, sessUtxo{Key: len(s.Utxos) % 2, Form: f, Value: 80000})
 		}
 		out = append(out, Case{Kind: "session", Tag: "corpus", W: w, S: s})
+	}
+	// FOREIGN outputs (witness class of /repo ebf80672, where model and code used to differ): every address type x
+	// {-raw: the input must stay unsigned, -send -useallinputs: the output must not be selected} with ALL foreign
+	// forms of the signing key in the balance folder, between two outputs the wallet owns
+	for j, at := range []string{"p2kh", "segwit", "bech32", "tap"} {
+		for t, then := range []string{"raw", "send"} {
+			w := &walletCase{Type: 3 + (j+t)%2, KeyCnt: 2, AType: at, File: pw, HdPath: []string{"m/0'", "m/0'/7"}[(j+t)%2], HdSubs: 1, Testnet: j == 1, Ltc: j == 2 && t == 1}
+			s := &sessionCase{Sign: -1, Then: then, Salt: fmt.Sprintf("f0%x%x", j, t), UseAll: true}
+			if t == 1 {
+				s.Sign, s.SignForm, s.Msg = 0, "listed", "foreign-"+at
+			}
+			s.Utxos = []sessUtxo{{Key: 0, Form: listedForm(at), Value: 200000}}
+			for _, f := range foreignForms {
+				s.Utxos = append(s.Utxos, sessUtxo{Key: len(s.Utxos) % 2, Form: f, Value: 70000})
+			}
+			if isForeign("p2sh", at) {
+				s.Utxos = append(s.Utxos, sessUtxo{Key: 0, Form: "p2sh", Value: 70000})
+			}
+			s.Utxos = append(s.Utxos, sessUtxo{Key: 1, Form: "p2pkh", Value: 90000})
+			out = append(out, Case{Kind: "session", Tag: "corpus", W: w, S: s})
+		}
 	}
 	// no -sign: the plain spend and the plain raw signature
 	for j, then := range []string{"send", "raw"} {
@@ -502,7 +565,8 @@ func caseSession(o *vlib.Oracle, c *rec, cs Case) {
 	}
 
 	// ---- 2. the transaction
-	var txKeys []int // per input: the listed key whose output it spends
+	var txKeys []int  // per input: the listed key whose output it spends (-1: a foreign output, left unsigned)
+	var txVouts []int // per input: the output of the funding transaction
 	txSigned := false
 	if s.Then == "send" || s.Then == "raw" {
 		ob, _ := os.ReadFile(filepath.Join(dir, "out.txt"))
@@ -522,6 +586,7 @@ func caseSession(o *vlib.Oracle, c *rec, cs Case) {
 				}
 				spent[i] = spentOuts[in.Input.Vout]
 				txKeys = append(txKeys, s.Utxos[in.Input.Vout].Key)
+				txVouts = append(txVouts, int(in.Input.Vout))
 				scrs = append(scrs, hx(spent[i].Pk_script))
 			}
 			if !okIn {
@@ -531,6 +596,25 @@ func caseSession(o *vlib.Oracle, c *rec, cs Case) {
 				ops = append(ops, "make", "tx:"+strings.Join(scrs, ","))
 				for i := range tx.TxIn {
 					u := s.Utxos[tx.TxIn[i].Input.Vout]
+					if isForeign(u.Form, w.AType) {
+						// an output the wallet does not own: -send must not have selected it; -raw must leave the input unsigned
+						unsigned := len(tx.TxIn[i].ScriptSig) == 0 && (tx.SegWit == nil || i >= len(tx.SegWit) || len(tx.SegWit[i]) == 0)
+						switch {
+						case s.Then == "send":
+							fail("session-foreign-script", fmt.Sprintf("-send selected output %d, a script (%s, %s) that only carries a hash of listed key #%d under another template - not an output of any listed address", tx.TxIn[i].Input.Vout, u.Form, hx(spent[i].Pk_script), u.Key))
+							txSigned = false
+						case !unsigned:
+							fail("session-foreign-script", fmt.Sprintf("-raw signed input %d, which spends a script (%s, %s) that only carries a hash of listed key #%d under another template; verifies=%v", i, u.Form, hx(spent[i].Pk_script), u.Key, sessVerifyInput(tx, spent, i)))
+							txSigned = false
+						default:
+							c.Hit("session-foreign-left-unsigned-" + u.Form)
+							txKeys[i] = -1
+						}
+						if !txSigned {
+							break
+						}
+						continue
+					}
 					c.Hit("session-input-" + u.Form)
 					if s.Sign >= 0 && u.Key == s.Sign {
 						c.Hit("session-input-of-the-key-that-signed-the-message")
@@ -555,6 +639,29 @@ func caseSession(o *vlib.Oracle, c *rec, cs Case) {
 						break
 					}
 				}
+			}
+		}
+	}
+
+	// ---- 2b. -send: which outputs of the balance folder the wallet took for its own (load_balance: pkscr_to_key)
+	var ownQuery []string // scripts of the whole folder, for the model's pkscr_to_key_idx (asked only when a foreign form is there)
+	if s.Then == "send" && txSigned {
+		hasForeign := false
+		selected := map[int]bool{}
+		for _, k := range txVouts {
+			selected[k] = true
+		}
+		for k, u := range s.Utxos {
+			if isForeign(u.Form, w.AType) {
+				hasForeign = true
+				c.Hit("session-foreign-not-selected-" + u.Form)
+			} else if s.UseAll && !selected[k] {
+				fail("session-run-fails", fmt.Sprintf("-send -useallinputs leaves out output %d (%s), an output of listed address #%d", k, u.Form, u.Key))
+			}
+		}
+		if hasForeign && s.UseAll {
+			for _, to := range spentOuts {
+				ownQuery = append(ownQuery, hx(to.Pk_script))
 			}
 		}
 	}
@@ -624,6 +731,14 @@ func caseSession(o *vlib.Oracle, c *rec, cs Case) {
 	if txSigned {
 		for i, k := range txKeys {
 			idx, mp := modelKey(op+1, i)
+			if k < 0 {
+				if mp != nil {
+					tie = false
+					c.TieFail("session-model", fmt.Sprintf("input %d spends a foreign-form script: the wallet finds no key, the store model record %d", i, idx), cs)
+					break
+				}
+				continue
+			}
 			if !bytes.Equal(mp, pubs[k]) {
 				tie = false
 				c.TieFail("session-model", fmt.Sprintf("input %d: the wallet signs with listed key %d, the store model with record %d (public key %s)", i, k, idx, hx(mp)), cs)
@@ -637,6 +752,28 @@ func caseSession(o *vlib.Oracle, c *rec, cs Case) {
 		if n != listedN {
 			tie = false
 			c.TieFail("session-model", fmt.Sprintf("the store model holds %d records at the end, the wallet listed %d", n, listedN), cs)
+		}
+	}
+	if len(ownQuery) > 0 {
+		// pkscr_to_key_idx over the whole folder (what load_balance asks): the model must own exactly what the wallet selected
+		req2 := fmt.Sprintf("session %d %s %d %d %d %d %s %s %s %s %s %s make tx:%s", w.Type, hx([]byte(w.HdPath)), w.Bip39, w.Scrypt, w.HdSubs,
+			w.KeyCnt, b2s(w.Testnet), b2s(w.Ltc), w.AType, hx(unhx(w.Seed)), hx(unhx(w.File)), hx(sout), strings.Join(ownQuery, ","))
+		rep2 := strings.Fields(o.MustAsk(req2))
+		if len(rep2) != 4 || rep2[0] != "ok" || len(strings.Split(rep2[3], ",")) != len(ownQuery) {
+			tie = false
+			c.TieFail("session-oracle", "the store model refuses the ownership query: "+strings.Join(rep2, " "), cs)
+		} else {
+			selected := map[int]bool{}
+			for _, k := range txVouts {
+				selected[k] = true
+			}
+			for k, f := range strings.Split(rep2[3], ",") {
+				if (f != "none") != selected[k] {
+					tie = false
+					c.TieFail("session-model", fmt.Sprintf("output %d (%s) of the balance folder: selected by the wallet = %v, owned according to the store model = %v", k, s.Utxos[k].Form, selected[k], f != "none"), cs)
+					break
+				}
+			}
 		}
 	}
 	if tie {
